@@ -289,7 +289,7 @@ func hostileValues() map[string]*ref.Value {
 		"beyond-int64": ref.NumLit("18446744073709551616"), "fraction": ref.NumLit("1.5"), "exponent": ref.NumLit("1e3"), "big-exponent": ref.NumLit("1e400"), "negative-zero": ref.NumLit("-0"),
 		"empty-string": ref.S(""), "string": ref.S("x"), "long-string": ref.S(long), "bang-colon": ref.S("!:"), "bang-x": ref.S("!x"), "bang-a-colon": ref.S("!abc:"), "room-with-space": ref.S("!a:b c"),
 		"at": ref.S("@"), "colon": ref.S(":"), "at-colon": ref.S("@:"), "no-colon": ref.S("@nocolon"), "dollar": ref.S("$"), "user-long": ref.S("@" + long + ":x"), "nul-char": ref.S("a\x00b"), "unicode": ref.S("é\U0001F600￿"),
-		"ipv6-user": ref.S("@a:[::1]:80"), "domainless-room": ref.S("!" + strings.Repeat("A", 43)), "event-id-v1": ref.S("$abc:origin.example"), "event-id-v3": ref.S("$" + strings.Repeat("A", 43)),
+		"ipv6-user": ref.S("@a:[::1]:80"), "open-bracket-user": ref.S("@a:["), "open-bracket-room": ref.S("!a:["), "open-bracket-port-room": ref.S("!a:[:8448"), "half-bracket-user": ref.S("@a:[::1"), "domainless-room": ref.S("!" + strings.Repeat("A", 43)), "event-id-v1": ref.S("$abc:origin.example"), "event-id-v3": ref.S("$" + strings.Repeat("A", 43)),
 		"empty-array": ref.A(), "array-of-null": ref.A(ref.NullV()), "array-of-int": ref.A(ref.I(5)), "array-of-empty-array": ref.A(ref.A()), "array-int-obj": ref.A(ref.I(5), ref.O()), "array-of-empty-string": ref.A(ref.S("")),
 		"array-ref-bad-hash": ref.A(ref.A(ref.S("$x:y"), ref.O("sha256", ref.I(1)))), "array-ref-short": ref.A(ref.A(ref.S("$x:y"))), "array-of-strings": ref.A(ref.S("$a"), ref.S("")),
 		"empty-object": ref.O(), "object-null-member": ref.O("origin.example", ref.NullV()), "object-nested-null": ref.O("origin.example", ref.O("ed25519:a", ref.NullV())), "object-wrong-types": ref.O("sha256", ref.I(5), "origin.example", ref.S("x")),
